@@ -9,7 +9,10 @@
 (*   answers  results of query calls: each must be a value the terminal      *)
 (*            reported for that query kind (its reply to this query, or one  *)
 (*            it volunteered earlier), and a call may not block.             *)
-EXTENDS Reports, TLC, Json, IOUtils
+(* The events are judged by ReportsKeys!Judge (optional events of ambiguous  *)
+(* reports, key modifiers where the report prescribes them, diagnosis of the *)
+(* recorded "Alt moves to the next key" finding: class).                     *)
+EXTENDS ReportsKeys, TLC, Json, IOUtils
 Trace == ndJsonDeserialize(IOEnv.TRACE)
 VARIABLES l
 Init == l = 1
@@ -20,7 +23,7 @@ Why(e) ==
   IF e.panic # "" THEN "panic"
   ELSE IF e.stalled THEN "input-loop-wedged"
   ELSE IF BadAnswers(e) # {} THEN "query-answer"
-  ELSE IF ~e.loose /\ FirstDiff(e.events, Expected(e.reports, FALSE, <<>>), 1) # 0 THEN "events"
+  ELSE IF ~e.loose /\ ~Judge(e.events, e.reports).ok THEN "events"
   ELSE "ok"
 
 Next ==
@@ -28,11 +31,11 @@ Next ==
   /\ LET e == Trace[l] IN
      IF e.ev = "run" /\ Why(e) # "ok" THEN
         LET w == Why(e)
-            want == Expected(e.reports, FALSE, <<>>)
-            i == IF w = "events" THEN FirstDiff(e.events, want, 1) ELSE 0
+            j == IF w = "events" THEN Judge(e.events, e.reports) ELSE [ok |-> TRUE, class |-> "", at |-> 0, want |-> End]
+            i == j.at
         IN PrintT("REJECT " \o ToJson([scn |-> e.scn, line |-> l, why |-> w, detail |-> e.panic,
-              at |-> i,
-              want |-> IF i > 0 /\ i <= Len(want) THEN want[i] ELSE [t |-> "end"],
+              at |-> i, class |-> j.class,
+              want |-> j.want,
               got |-> IF i > 0 /\ i <= Len(e.events) THEN e.events[i] ELSE [t |-> "end"],
               answer |-> IF w = "query-answer" THEN e.answers[CHOOSE k \in BadAnswers(e) : TRUE] ELSE [q |-> ""]]))
      ELSE TRUE
